@@ -21,7 +21,7 @@
    ONE position.  Where the code's pointer surgery would produce anything else (a splice on
    level i that is not at the level-0 position; an unlink loop that stops before the node's
    height) the model clears the flag [rep]; that this never happens is a theorem
-   (SkipProof.inv_run), not an assumption.
+   (props/C05_skip.v, skip_invariants_reachable), not an assumption.
    Identities: order of creation, 1,2,3,...; the header is 0.
    Definitions only; proofs are in proof/SkipProof.v. *)
 From Ekit Require Import Common.
